@@ -71,7 +71,7 @@ def fd_weights_all(x, x0=0, n=1):
     _assert(n < m, 'len(x) must be larger than n')
 
     weights = np.zeros((m, n + 1))
-    _fd_weights_all(weights, x, x0, n)
+    _fd_weights_all(weights, np.asarray(x, dtype=float), x0, n)
     return weights.T
 
 
